@@ -21,7 +21,7 @@ def profile(name, policy, **kw):
 
 def profiles_for(pid, tier):
     th = tier == "thorough"
-    d = 7 if th else 6
+    d = 6 if th else 5
     edge = []
     if pid == "C01":
         edge.append(profile("woe-fifo", "woe", max_steps=d))
@@ -189,7 +189,7 @@ def trace_check(d, p, scripts, invariant, tag, max_rounds=6):
                 raise core.ToolError(f"Trace_Hybrid did not consume the whole trace:\n{r['out'][-2000:]}")
             break
         ls = re.findall(r"/\\ l = (\d+)", r["out"])
-        bads = re.findall(r"/\\ bad = (\{.*\})", r["out"])
+        bads = [core.last_var(r["out"], "bad")]
         line_no = int(ls[-1]) - 1
         acc = 0
         for i, s in enumerate(pending):
